@@ -34,6 +34,12 @@ type leakCase struct {
 }
 
 func (c leakCase) String() string {
+	if c.Kind == "limit-reuse" && c.Take == -2 {
+		return fmt.Sprintf("limit installed twice (100, then %d): %d ConcatO searches of %d elements on it, idle %dms in between", c.Max, c.Calls, c.N, c.Variant)
+	}
+	if c.Kind == "limit-reuse" && c.Take == -3 {
+		return fmt.Sprintf("limit %d: %d ConcatO searches of %d elements, each on its own child context that is cancelled afterwards, idle %dms in between", c.Max, c.Calls, c.N, c.Variant)
+	}
 	return fmt.Sprintf("%s n=%d take=%d max=%d calls=%d variant=%d", c.Kind, c.N, c.Take, c.Max, c.Calls, c.Variant)
 }
 
@@ -142,13 +148,50 @@ func observeLeak(c leakCase) *leakObs {
 			_ = g(st)
 		}
 		o.How = "returned"
+	case c.Kind == "gomini-open-streams":
+		// the exported stream operators on inputs that nobody ever closes: after the cancel they must return
+		for k := 0; k < c.Calls; k++ {
+			ctx, cancel := context.WithCancel(context.Background())
+			rctx := ctx
+			if c.Max > 0 {
+				rctx = gomini.SetMaxRoutines(ctx, c.Max)
+			}
+			s1, s2, res := gomini.NewEmptyStream(), gomini.NewEmptyStream(), gomini.NewEmptyStream()
+			go gomini.Mplus(rctx, s1, s2, res)
+			s3, res2 := gomini.NewEmptyStream(), gomini.NewEmptyStream()
+			go gomini.Bind(rctx, s3, gomini.SuccessO, res2)
+			if c.Variant%2 == 1 { // one state in flight on each
+				st := gomini.NewState()
+				go s1.Write(rctx, st)
+				go s3.Write(rctx, st)
+				if c.Take > 0 {
+					select {
+					case <-res:
+					case <-time.After(2 * time.Second):
+					}
+				}
+			}
+			time.Sleep(time.Duration(5+5*k) * time.Millisecond)
+			cancel()
+		}
+		o.How = "cancelled"
 	case c.Kind == "limit-reuse" || c.Kind == "limit-burst":
 		// ONE limited context serves several searches in a row (with idle refill periods in between), each read to the end
 		ctx, cancel := context.WithCancel(context.Background())
 		rctx := gomini.SetMaxRoutines(ctx, c.Max)
+		if c.Take == -2 {
+			// the limit is installed twice (a default, then the one in force)
+			rctx = gomini.SetMaxRoutines(gomini.SetMaxRoutines(ctx, 100), c.Max)
+		}
+		lim := rctx
 		o.How = "closed"
 	searches:
 		for k := 0; k < c.Calls; k++ {
+			cancelChild := func() {}
+			if c.Take == -3 {
+				// every search runs on its own child of the limited context, cancelled when the search is over
+				rctx, cancelChild = context.WithCancel(lim)
+			}
 			var ch chan any
 			if c.Kind == "limit-burst" {
 				ch = gomini.Run(rctx, gomini.NewState(), burstProgram(c.N))
@@ -166,6 +209,7 @@ func observeLeak(c leakCase) *leakObs {
 				select {
 				case a, ok := <-ch:
 					if !ok {
+						cancelChild()
 						time.Sleep(time.Duration(c.Variant) * time.Millisecond) // idle: the refill ticker runs with nothing to do
 						continue searches
 					}
@@ -192,6 +236,30 @@ func observeLeak(c leakCase) *leakObs {
 			var ch chan any
 			if c.Kind == "gomini-infinite" {
 				ch = gomini.Run(rctx, gomini.NewState(), func(q *int) gomini.Goal { return gfives(q) })
+			} else if c.Kind == "gomini-elserec" {
+				// a relation that recurses through the ELSE branch (eta-expanded, as recursive Go relations are):
+				//   r(q) = if q = 1 and q = 2 then succeed else r(q)      - a silent infinite search; then cancel
+				var rel func(q *int) gomini.Goal
+				rel = func(q *int) gomini.Goal {
+					one, two := 1, 2
+					return gomini.IfThenElseO(gomini.ConjO(gomini.EqualO(q, &one), gomini.EqualO(q, &two)), gomini.SuccessO,
+						func(ctx context.Context, s *gomini.State, ss gomini.Stream) { rel(q)(ctx, s, ss) })
+				}
+				ch = gomini.Run(rctx, gomini.NewState(), rel)
+				time.Sleep(time.Duration(10+10*k) * time.Millisecond)
+			} else if c.Kind == "gomini-ifte" {
+				// if (q = 1 or q = 2 or q = 3 [or fives(q)]) then (fives(y) or q = q) else q = 0 : several condition answers,
+				// an infinite then-branch; cancelled after Take answers
+				ch = gomini.Run(rctx, gomini.NewState(), func(q *int) gomini.Goal {
+					one, two, three, zero := 1, 2, 3, 0
+					conds := []gomini.Goal{gomini.EqualO(q, &one), gomini.EqualO(q, &two), gomini.EqualO(q, &three)}
+					if c.Variant%2 == 1 {
+						conds = append(conds, gfives(q))
+					}
+					return gomini.IfThenElseO(gomini.DisjO(conds...),
+						gomini.ExistO(func(y *int) gomini.Goal { return gomini.DisjO(gfives(y), gomini.EqualO(q, q)) }),
+						gomini.EqualO(q, &zero))
+				})
 			} else {
 				xs := make([]string, c.N)
 				for j := range xs {
@@ -257,6 +325,10 @@ func genLeakCases(cfg *Config, prop string) []leakCase {
 				cases = append(cases, leakCase{Kind: "gomini-infinite", Take: take, Max: max, Calls: 1})
 			}
 		}
+		cases = append(cases, leakCase{Kind: "gomini-ifte", Take: 1, Max: 2, Calls: 6, Variant: 0}, leakCase{Kind: "gomini-ifte", Take: 2, Max: 0, Calls: 4, Variant: 1},
+			leakCase{Kind: "gomini-ifte", Take: 0, Max: 3, Calls: 4, Variant: 1},
+			leakCase{Kind: "gomini-elserec", Take: 0, Max: 0, Calls: 3}, leakCase{Kind: "gomini-elserec", Take: 0, Max: 3, Calls: 2},
+			leakCase{Kind: "gomini-open-streams", Take: 0, Max: 0, Calls: 5, Variant: 0}, leakCase{Kind: "gomini-open-streams", Take: 1, Max: 2, Calls: 5, Variant: 1})
 	} else {
 		for _, max := range []int{1, 2, 3, 5, 100} {
 			for _, n := range []int{2, 3, 5} {
@@ -264,26 +336,34 @@ func genLeakCases(cfg *Config, prop string) []leakCase {
 			}
 		}
 		// the same limited context used for several searches, with idle refill periods in between
-		cases = append(cases, leakCase{Kind: "limit-reuse", N: 6, Take: -1, Max: 1, Calls: 3, Variant: 35},
+		cases = append(cases, leakCase{Kind: "limit-reuse", N: 5, Take: -2, Max: 3, Calls: 2, Variant: 20}, leakCase{Kind: "limit-reuse", N: 5, Take: -3, Max: 1, Calls: 3, Variant: 30},
+			leakCase{Kind: "limit-reuse", N: 6, Take: -1, Max: 1, Calls: 3, Variant: 35},
 			leakCase{Kind: "limit-reuse", N: 4, Take: -1, Max: 2, Calls: 4, Variant: 25},
+			// limits far ABOVE the search's depth: installing the limit must not take longer than a refill period allows for
+			leakCase{Kind: "limit", N: 3, Take: -1, Max: 3000000, Calls: 1},
+			leakCase{Kind: "limit", N: 2, Take: -1, Max: 40000000, Calls: 1},
 			// sibling goroutines that finish at the same instant under a limit far below the depth
 			leakCase{Kind: "limit-burst", N: 8, Take: -1, Max: 1, Calls: 25},
 			leakCase{Kind: "limit-burst", N: 6, Take: -1, Max: 2, Calls: 25})
 	}
 	for len(cases) < cfg.N {
 		if prop == "C11" {
-			switch r.Intn(3) {
+			switch r.Intn(5) {
 			case 0:
 				cases = append(cases, leakCase{Kind: pick(r, []string{"conc-conj", "conc-conjzzz", "conc-disj", "conc-noorder"}), N: 2 + r.Intn(5), Calls: 10 + r.Intn(40), Variant: r.Intn(4)})
 			case 1:
 				cases = append(cases, leakCase{Kind: "gomini-finite", N: 2 + r.Intn(8), Take: r.Intn(5) - 1, Max: pick(r, []int{0, 0, 2, 5}), Calls: 1 + r.Intn(5)})
-			default:
+			case 2:
 				cases = append(cases, leakCase{Kind: "gomini-infinite", Take: r.Intn(6), Max: pick(r, []int{0, 0, 3, 8}), Calls: 1})
+			case 3:
+				cases = append(cases, leakCase{Kind: "gomini-ifte", Take: r.Intn(4), Max: pick(r, []int{0, 2, 3}), Calls: 2 + r.Intn(5), Variant: r.Intn(2)})
+			default:
+				cases = append(cases, leakCase{Kind: "gomini-open-streams", Take: r.Intn(2), Max: pick(r, []int{0, 2}), Calls: 2 + r.Intn(5), Variant: r.Intn(2)})
 			}
 		} else {
 			switch r.Intn(4) {
 			case 0:
-				cases = append(cases, leakCase{Kind: "limit-reuse", N: 2 + r.Intn(6), Take: -1, Max: pick(r, []int{1, 1, 2, 3}), Calls: 2 + r.Intn(3), Variant: 15 + r.Intn(40)})
+				cases = append(cases, leakCase{Kind: "limit-reuse", N: 2 + r.Intn(6), Take: pick(r, []int{-1, -2, -3}), Max: pick(r, []int{1, 1, 2, 3}), Calls: 2 + r.Intn(3), Variant: 15 + r.Intn(40)})
 			case 1:
 				cases = append(cases, leakCase{Kind: "limit-burst", N: 4 + r.Intn(6), Take: -1, Max: pick(r, []int{1, 1, 2, 3}), Calls: 15 + r.Intn(15)})
 			default:
@@ -305,9 +385,9 @@ func runLeak(cfg *Config, prop string) *Report {
 	}
 	rep := newReport()
 	if prop == "C11" {
-		rep.Rule = "concurrent combinators called 10..50 times on argument lists mixing fail/succeed/alwayso/nevero (early-return paths); gomini searches (finite ConcatO splits, an infinite fives relation) cancelled after 0..k answers or read to the end, with and without SetMaxRoutines; goroutine count before / 400ms after / 150ms later, each case in its own process; non-trivial = the case has an early exit (a failing conjunct, or a cancel before the last answer); distinct by case parameters"
+		rep.Rule = "concurrent combinators called 10..50 times on argument lists mixing fail/succeed/alwayso/nevero (early-return paths); gomini searches (finite ConcatO splits, an infinite fives relation, IfThenElseO with several condition answers and an infinite then-branch, a relation that recurses through its else-branch) cancelled after 0..k answers or read to the end, with and without SetMaxRoutines; the exported Mplus / Bind on streams nobody closes, then cancel; goroutine count before / 400ms after / 150ms later, each case in its own process; non-trivial = the case has an early exit (a failing conjunct, or a cancel before the last answer); distinct by case parameters"
 	} else {
-		rep.Rule = "finite ConcatO split searches read to the end under SetMaxRoutines(max) for max in 1..100 (far below the search's goroutine depth), each case in its own process; one limited context reused for 2..4 searches with idle refill periods of 15..55ms in between; disjunctions of 4..9 sibling branches that finish at the same instant (rendezvous) under max in 1..3, 15..30 rounds; compared with the unlimited run: terminates (bound 8s) with the same multiset of answers; non-trivial = max is smaller than the list length + 2; distinct by case parameters"
+		rep.Rule = "finite ConcatO split searches read to the end under SetMaxRoutines(max) for max in 1..100 (far below the search's goroutine depth) and max in the millions (far above it), each case in its own process; the limit installed twice; searches on cancelled children of the limited context; one limited context reused for 2..4 searches with idle refill periods of 15..55ms in between; disjunctions of 4..9 sibling branches that finish at the same instant (rendezvous) under max in 1..3, 15..30 rounds; compared with the unlimited run: terminates (bound 8s) with the same multiset of answers; non-trivial = max is smaller than the list length + 2; distinct by case parameters"
 	}
 	iso := isolate(prop, cfg, len(cases), 1, 12*time.Second)
 	for i, c := range cases {
